@@ -12,6 +12,7 @@ import (
 	"fmt"
 	"math/rand"
 	"runtime"
+	"sort"
 	"strings"
 	"sync"
 	"testing"
@@ -88,7 +89,9 @@ func TestVerifSCConc(t *testing.T) {
 		var inputs []string
 		for i := 0; i < callers; i++ {
 			v := vals[rng.Intn(nvals)]
-			switch rng.Intn(3) {
+			switch rng.Intn(4) {
+			case 3: // copies of every value: several matcher goroutines of ONE call report at the same time
+				inputs = append(inputs, "zzqx "+strings.Join(vals, " qqzv ")+" vvkq "+vals[0])
 			case 0:
 				inputs = append(inputs, "zzqx qqzv "+v+" vvkq")
 			case 1:
@@ -142,6 +145,21 @@ func TestVerifSCConc(t *testing.T) {
 			}(i)
 		}
 		wg.Wait()
+		// the same new key registered by all callers at once: exactly one of them succeeds
+		big := strings.Repeat("some long text to normalise \t\n ", 4000)
+		oks := make([]bool, callers)
+		for i := 0; i < callers; i++ {
+			wg.Add(1)
+			go func(i int) {
+				defer wg.Done()
+				oks[i] = c.AddValue("samekey", big+fmt.Sprint(i)) == nil
+			}(i)
+		}
+		wg.Wait()
 		VerifSink = nil
+		sort.Slice(oks, func(i, j int) bool { return oks[i] && !oks[j] }) // the successful registration(s) first
+		for _, ok := range oks {
+			out.Emit(map[string]interface{}{"ev": "add", "c": cid, "key": "samekey", "ok": ok, "panic": ""})
+		}
 	}
 }
